@@ -33,6 +33,9 @@ func NewTimerRegistry(store *TimerStore, srIDs []string) *TimerRegistry {
 	return &TimerRegistry{
 		upstreams: upstreams,
 		store:     store,
+		// Upstreams that haven't reported count as the epoch, so the composite
+		// watermark starts there too (not at the zero time.Time).
+		watermark: time.Unix(0, 0),
 	}
 }
 
